@@ -11,6 +11,13 @@
 // scripted publisher (vlib.Pub); every boundary crossing (emission, handler entry/exit, Publish
 // entry/exit, settlement) is recorded and each execution is judged against a reference function
 // (expect) derived from the statement.
+//
+// Workload classes: matrix/1, matrix/n, random/<kind> (one handler, messages finish while the Router is running);
+// end-matrix/<mode>, random-end/<kind> (the handler's subscription ends - Handler.Stop, Router.Close, Run context
+// cancelled, subscriber closes its channel - while messages are held inside the handler or inside Publish; they are
+// let go only after the end has gone through the Router); multi-matrix/<pubmode>, random-multi/<pubmode> (several
+// handlers with their own publisher instances, publisher/subscriber decorators on the Router: a message's settlement
+// must follow the publisher of its own handler). The oracle is the same for all classes.
 package c02
 
 import (
@@ -22,6 +29,7 @@ import (
 	"strconv"
 	"strings"
 	"sync"
+	"sync/atomic"
 	"time"
 
 	"github.com/ThreeDotsLabs/watermill"
@@ -131,25 +139,129 @@ var cells = func() []cell {
 
 func matrixCases() int { return 2 * len(cells) }
 
+// ---- class "end": the subscription ends while messages are in flight
+
+// ways in which the (inner) subscription of the handler ends while messages are still being handled
+var endModes = []string{
+	"handler-stop", // Handler.Stop()
+	"router-close", // Router.Close() (it waits for the handlers that are still running)
+	"ctx-cancel",   // the context given to Router.Run is cancelled
+	"sub-close",    // the subscriber closes its output channel by itself (Close called on it from outside the Router)
+}
+
+// where a message is held when the subscription ends
+const (
+	holdNone    = ""        // not held: it is settled before the subscription ends
+	holdPre     = "h-pre"   // inside the handler, before the handler's own settlement (if any)
+	holdPost    = "h-post"  // inside the handler, after the handler's own settlement (if any), before it returns
+	holdPublish = "publish" // inside the Publish call made for the message's outputs
+)
+
+type endCell struct {
+	End  string
+	Keep bool // a second handler keeps the Router running when the first one stops
+	Hold string
+	Kind string
+	H, P int
+}
+
+var endCells = func() []endCell {
+	var cs []endCell
+	for _, end := range endModes {
+		for _, keep := range []bool{false, true} {
+			for _, hold := range []string{holdPre, holdPost, holdPublish} {
+				for h := range hbehs {
+					for p := 0; p < 2; p++ { // accept, error
+						x := expect(kindPub, nil, hbehs[h], pbehs[p])
+						if !x.Publish && (hold == holdPublish || p != 0) {
+							continue // no Publish call: nothing to hold there / the publisher does not matter
+						}
+						cs = append(cs, endCell{end, keep, hold, kindPub, h, p})
+					}
+				}
+			}
+			for k, h := range hbehsNoOut {
+				cs = append(cs, endCell{end, keep, []string{holdPre, holdPost}[k%2], kindNoPub, h, 0})
+			}
+			for k, h := range []int{0, 2, 4} { // ret-nil, ret-1, err
+				cs = append(cs, endCell{end, keep, []string{holdPost, holdPre}[k%2], kindNilPub, h, 0})
+			}
+		}
+	}
+	return cs
+}()
+
+// ---- class "multi": several handlers on one Router, each with its own publisher
+
+// how the publishers of the handlers relate to each other
+var pubModes = []string{
+	"same-type",   // distinct instances of one Go type (no String method): same name for the Router (internal.StructName)
+	"same-string", // distinct instances whose String() is equal
+	"diff-string", // distinct instances whose String() differs
+	"diff-type",   // instances of different Go types
+	"shared",      // one instance shared by all handlers
+}
+
+var decoSets = [][]string{nil, {"transform"}, {"wrap"}, {"transform", "wrap"}}
+
+type multiCell struct {
+	PubMode string
+	Decos   []string
+	Behs    [2]string // behaviour of the publisher instance of handler 0 / 1 ("" = decided per message)
+	H       int
+}
+
+var multiCells = func() []multiCell {
+	var cs []multiCell
+	for _, pm := range pubModes {
+		for _, d := range decoSets {
+			for _, b := range [][2]string{{"accept", "error"}, {"error", "accept"}, {"accept", "panic-str"}, {"", ""}} {
+				for _, h := range []int{2, 3} { // ret-1, ret-3
+					cs = append(cs, multiCell{pm, d, b, h})
+				}
+			}
+		}
+	}
+	return cs
+}()
+
+func oldRandomCases(tier string) int   { return vlib.TierN(tier, 2000, 500000) }
+func endRandomCases(tier string) int   { return vlib.TierN(tier, 600, 30000) }
+func multiRandomCases(tier string) int { return vlib.TierN(tier, 400, 20000) }
+
 func init() {
 	vlib.Register(&vlib.Prop{
 		ID:    "C02",
 		Level: "fault_enumeration",
-		Cases: func(tier string) int { return matrixCases() + vlib.TierN(tier, 2000, 500000) },
+		Cases: func(tier string) int {
+			return matrixCases() + oldRandomCases(tier) + len(endCells) + len(multiCells) + endRandomCases(tier) + multiRandomCases(tier)
+		},
 		Rule: fmt.Sprintf("matrix part: %d cells = {%d handler behaviours: returns nil/empty/1/3 messages, error, error+1/3 messages, panic(string|error|nil), "+
 			"context.Canceled (bare/wrapped), Ack-then-{ok,ok+msg,err,err+msg,panic}, Nack-then-{ok,ok+1/3 msgs,err,err+msg,panic}, Ack-then-Nack} x {publisher: accept,error,panic(string),panic(nil),error on the first call for a message only} x "+
 			"{AddHandler+publisher, AddNoPublisherHandler, AddHandler+nil publisher} x {%d middleware prefixes: none, pass-through (router/handler level), output-adding "+
 			"(router/handler level), error-swallowing, failing, panic-recovering}; every cell is run once with 1 message and once with 2..16 messages held in the handler "+
 			"at the same time by a barrier. Random part: one Router/handler per case, 1..16 messages with independently drawn handler and publisher behaviours, random kind, "+
-			"0..3 middlewares, barrier or free-running, random yields at watermill's verifhook points and inside the handler. A case is non-trivial when every emitted message "+
-			"was taken, handled and judged (and, for multi-message barrier cases, >=2 handlers were observed in flight together); distinct = distinct "+
-			"(cell, multiplicity) for the matrix, distinct (kind, middleware, per-message behaviours, settlement order) for random batches.", len(cells), len(hbehs), len(mwMatrix)),
+			"0..3 middlewares, barrier or free-running, random yields at watermill's verifhook points and inside the handler. "+
+			"Class end (%d enumerated cells + random part): the handler's subscription ends while messages are in flight = {Handler.Stop, Router.Close, Run context cancelled, subscriber closes "+
+			"its channel itself} x {message held inside the handler before / after its own settlement, inside the Publish call} x {with / without a second handler that keeps the Router running} x "+
+			"handler/publisher behaviours; 0..2 messages that finished earlier precede the held one (random part: 1..8 messages, each held at a random point or not at all, 0..2 "+
+			"subscriber decorators, random middleware); the harness waits until the end of the subscription has propagated through the Router (handler stopped, publisher closed or "+
+			"process quiescent), only then lets the held messages go on, and judges them with the same rules. "+
+			"Class multi (%d enumerated cells + random part): 2..4 handlers on one Router, each with its own subscription; publishers = {distinct instances of one Go type, distinct instances with equal / "+
+			"different String(), different Go types, one shared instance} x {0..2 publisher decorators: message transform, wrapping type} x publisher instances that behave differently "+
+			"(accept / error / panic) x handler kinds; a Publish call counts for a message only if it reached the publisher instance given to the message's own handler. "+
+			"A case is non-trivial when every emitted message "+
+			"was taken, handled and judged (and, for multi-message barrier cases, >=2 handlers were observed in flight together; for class end, >=1 message was in flight when the subscription "+
+			"ended and the end was observed to have propagated; for class multi, >=2 handlers handled messages); distinct = distinct "+
+			"(cell, multiplicity) for the matrices, distinct (class, configuration, per-message behaviours, settlement order) for random batches.", len(cells), len(hbehs), len(mwMatrix), len(endCells), len(multiCells)),
 		Assumptions: []string{
 			"panic(nil) follows the Go >= 1.21 semantics of the harness module (recover() returns *runtime.PanicNilError)",
 			"a message counts as taken by the Router when the scripted subscriber's channel send completed (it was received by the Router's subscriber decorator)",
 			"published messages are matched with the returned ones by their (unique) UUID and compared by value; pointer identity is recorded as a counter only, because the statement does not promise it",
 			"splitting the outputs over several Publish calls is tolerated (the statement only says every returned message was accepted); an empty Publish call is not",
 			"'never settles' is decided by process quiescence (all goroutines blocked, no timer pending), never by a time-out; RouterConfig.CloseTimeout is one hour",
+			"class end: every message is taken and has entered its handler before the subscription is ended (a message the Router's subscriber decorator can no longer deliver is legitimately nacked without being handled, which is not what C02 is about)",
+			"class multi: 'the handler's publisher' is the instance passed to AddHandler, seen through whatever decorators the Router was given; publisher decorators used by the harness do not change message values",
 		},
 		Run: run,
 	})
@@ -159,25 +271,80 @@ func init() {
 // Case construction
 
 type mspec struct {
-	H  int `json:"h"`
-	P  int `json:"p"`
-	Y1 int `json:"-"`
-	Y2 int `json:"-"`
+	H    int    `json:"h"`
+	P    int    `json:"p"`
+	Hd   int    `json:"hd,omitempty"`   // index of the handler whose subscription emits the message
+	Hold string `json:"hold,omitempty"` // class end: where the message is held when the subscription ends
+	Y1   int    `json:"-"`
+	Y2   int    `json:"-"`
+}
+
+// hspec is one handler of the Router.
+type hspec struct {
+	Kind string
+	Sub  int // index into config.Subs
+	Pub  int // index into config.Pubs (-1: the handler has no publisher of its own)
+}
+
+// pspec is one publisher instance.
+type pspec struct {
+	Type string // "S": *vlib.Pub (has a String method), "A"/"B": wrapper types without one
+	Name string
+	Beh  string // behaviour of the instance; "" = decided per message (mspec.P)
 }
 
 type config struct {
 	Class   string
-	Kind    string
+	Kind    string // kind of the only handler when Handlers is empty
 	MW      []string
 	Barrier bool
 	YieldP  float64
 	Specs   []mspec
+
+	// several handlers (class multi); empty = one handler of kind Kind with one publisher and one subscriber
+	Handlers []hspec
+	Pubs     []pspec
+	Subs     []string // subscriber instance names
+	PubMode  string
+	PubDecos []string // router-level publisher decorators
+	SubDecos int      // router-level subscriber decorators
+	// SameTopics: all handlers publish to one topic name, and (when every handler has its own subscriber instance)
+	// subscribe to one topic name; otherwise every handler has its own topic names
+	SameTopics bool
+
+	// class end
+	End  string
+	Keep bool
+}
+
+func (c *config) normalize(id string) {
+	if len(c.Handlers) == 0 {
+		h := hspec{Kind: c.Kind, Sub: 0, Pub: -1}
+		if c.Kind == kindPub {
+			h.Pub = 0
+			c.Pubs = []pspec{{Type: "S", Name: id}}
+		}
+		c.Handlers = []hspec{h}
+		c.Subs = []string{id}
+	}
+}
+
+// kindOf returns the kind of the handler that message i was emitted for.
+func (c *config) kindOf(i int) string { return c.Handlers[c.Specs[i].Hd].Kind }
+
+// ownBeh is the behaviour of the publisher of message i's own handler towards the outputs of message i.
+func (c *config) ownBeh(i int) string {
+	if p := c.Handlers[c.Specs[i].Hd].Pub; p >= 0 && c.Pubs[p].Beh != "" {
+		return c.Pubs[p].Beh
+	}
+	return pbehs[c.Specs[i].P]
 }
 
 func run(e *vlib.Env) vlib.Result {
-	if e.Idx < matrixCases() {
-		c := cells[e.Idx/2]
-		multi := e.Idx%2 == 1
+	idx := e.Idx
+	if idx < matrixCases() {
+		c := cells[idx/2]
+		multi := idx%2 == 1
 		n := 1
 		class := "matrix/1"
 		if multi {
@@ -192,12 +359,155 @@ func run(e *vlib.Env) vlib.Result {
 			cfg.Specs = append(cfg.Specs, mspec{H: c.H, P: c.P, Y1: e.R.Intn(3), Y2: e.R.Intn(3)})
 		}
 		res := runBatch(e, cfg)
-		res.Sig = vlib.Sig("matrix", e.Idx/2, multi)
+		res.Sig = vlib.Sig("matrix", idx/2, multi)
 		return res
 	}
-	// random batch
+	idx -= matrixCases()
+	if idx < oldRandomCases(e.Tier) {
+		return runBatch(e, randomSingle(e.R))
+	}
+	idx -= oldRandomCases(e.Tier)
+	if idx < len(endCells) {
+		c := endCells[idx]
+		cfg := config{Class: "end-matrix/" + c.End, Kind: c.Kind, End: c.End, Keep: c.Keep}
+		// 0..2 messages that are settled before the subscription ends, then the one that is in flight at that moment
+		// (the last one the subscription delivered)
+		for i := e.R.Intn(3); i > 0; i-- {
+			s := mspec{H: e.R.Intn(len(hbehs)), P: e.R.Intn(len(pbehs)), Y1: e.R.Intn(3), Y2: e.R.Intn(3)}
+			if c.Kind == kindNoPub {
+				s.H = hbehsNoOut[e.R.Intn(len(hbehsNoOut))]
+			}
+			cfg.Specs = append(cfg.Specs, s)
+		}
+		cfg.Specs = append(cfg.Specs, mspec{H: c.H, P: c.P, Hold: c.Hold, Y1: e.R.Intn(3), Y2: e.R.Intn(3)})
+		res := runBatch(e, cfg)
+		res.Sig = vlib.Sig("end-matrix", idx)
+		return res
+	}
+	idx -= len(endCells)
+	if idx < len(multiCells) {
+		c := multiCells[idx]
+		cfg := config{Class: "multi-matrix/" + c.PubMode, PubMode: c.PubMode, PubDecos: c.Decos, Barrier: e.R.Bool(), YieldP: 0.2, SameTopics: e.R.Chance(0.3)}
+		buildMulti(&cfg, e.ID(), []string{kindPub, kindPub}, c.PubMode, e.R.Intn(3), func(k int) string { return c.Behs[k] })
+		for hd := 0; hd < 2; hd++ {
+			for i := e.R.Range(1, 2); i > 0; i-- {
+				cfg.Specs = append(cfg.Specs, mspec{H: c.H, P: e.R.Intn(len(pbehs)), Hd: hd, Y1: e.R.Intn(3), Y2: e.R.Intn(3)})
+			}
+		}
+		res := runBatch(e, cfg)
+		res.Sig = vlib.Sig("multi-matrix", idx)
+		return res
+	}
+	idx -= len(multiCells)
+	if idx < endRandomCases(e.Tier) {
+		cfg := randomSingle(e.R)
+		cfg.Class = "random-end/" + cfg.Kind
+		cfg.Barrier = false
+		cfg.End = endModes[e.R.Intn(len(endModes))]
+		cfg.Keep = e.R.Bool()
+		cfg.SubDecos = e.R.Intn(3)
+		if len(cfg.Specs) > 8 {
+			cfg.Specs = cfg.Specs[:8]
+		}
+		for i := range cfg.Specs {
+			cfg.Specs[i].Hold = []string{holdNone, holdPre, holdPost, holdPublish, holdPublish}[e.R.Intn(5)]
+		}
+		if last := &cfg.Specs[len(cfg.Specs)-1]; last.Hold == holdNone && e.R.Chance(0.7) {
+			last.Hold = []string{holdPre, holdPost}[e.R.Intn(2)]
+		}
+		return runBatch(e, cfg)
+	}
+	// random multi
+	r := e.R
+	nh := r.Range(2, 4)
+	kinds := make([]string, nh)
+	for k := range kinds {
+		switch x := r.Intn(10); {
+		case x < 8 || k == 0:
+			kinds[k] = kindPub
+		case x < 9:
+			kinds[k] = kindNilPub
+		default:
+			kinds[k] = kindNoPub
+		}
+	}
+	pm := pubModes[r.Intn(len(pubModes))]
+	cfg := config{Class: "random-multi/" + pm, PubMode: pm, MW: randomMW(r), SubDecos: r.Intn(3), YieldP: []float64{0, 0.1, 0.3, 0.6}[r.Intn(4)]}
+	for i := r.Intn(3); i > 0; i-- {
+		cfg.PubDecos = append(cfg.PubDecos, []string{"transform", "wrap"}[r.Intn(2)])
+	}
+	if len(cfg.PubDecos) > 0 {
+		// Not combined: the Router hands a nil publisher to the decorators like any other, and calls Close on the result
+		// when the handler stops - with decorators that forward Close (watermill's own MessageTransformPublisherDecorator
+		// does) that is a nil dereference in a Router goroutine. It has nothing to do with settlements.
+		for k := range kinds {
+			if kinds[k] == kindNilPub {
+				kinds[k] = kindNoPub
+			}
+		}
+	}
+	buildMulti(&cfg, e.ID(), kinds, pm, r.Intn(3), func(int) string {
+		return []string{"", "", "", "accept", "accept", "accept", "error", "error", "panic-str", "panic-nil"}[r.Intn(10)]
+	})
+	for hd := 0; hd < nh; hd++ {
+		for i := r.Range(1, 4); i > 0; i-- {
+			s := mspec{H: r.Intn(len(hbehs)), P: r.Intn(len(pbehs)), Hd: hd, Y1: r.Intn(4), Y2: r.Intn(4)}
+			if r.Chance(0.5) {
+				s.H = []int{2, 3}[r.Intn(2)] // enough handlers whose outputs reach the publisher
+			}
+			if kinds[hd] == kindNoPub {
+				s.H = hbehsNoOut[r.Intn(len(hbehsNoOut))]
+			}
+			cfg.Specs = append(cfg.Specs, s)
+		}
+	}
+	cfg.Barrier = r.Chance(0.5)
+	cfg.SameTopics = r.Chance(0.3)
+	return runBatch(e, cfg)
+}
+
+// buildMulti fills in the handlers, publisher instances and subscriber instances of a multi-handler case.
+// subMode: 0 = one subscriber instance per handler with equal names, 1 = with different names, 2 = one shared instance.
+func buildMulti(cfg *config, id string, kinds []string, pubMode string, subMode int, beh func(k int) string) {
+	for k, kind := range kinds {
+		h := hspec{Kind: kind, Pub: -1}
+		switch subMode {
+		case 0:
+			h.Sub = len(cfg.Subs)
+			cfg.Subs = append(cfg.Subs, id)
+		case 1:
+			h.Sub = len(cfg.Subs)
+			cfg.Subs = append(cfg.Subs, fmt.Sprintf("%s-s%d", id, k))
+		default:
+			if len(cfg.Subs) == 0 {
+				cfg.Subs = []string{id}
+			}
+		}
+		if kind == kindPub {
+			if pubMode == "shared" && len(cfg.Pubs) > 0 {
+				h.Pub = 0
+			} else {
+				p := pspec{Type: "S", Name: id, Beh: beh(len(cfg.Pubs))}
+				switch pubMode {
+				case "same-type":
+					p.Type = "A"
+				case "diff-string":
+					p.Name = fmt.Sprintf("%s-p%d", id, len(cfg.Pubs))
+				case "diff-type":
+					p.Type = []string{"A", "B", "S"}[len(cfg.Pubs)%3]
+				}
+				h.Pub = len(cfg.Pubs)
+				cfg.Pubs = append(cfg.Pubs, p)
+			}
+		}
+		cfg.Handlers = append(cfg.Handlers, h)
+	}
+}
+
+// randomSingle draws a one-handler batch (the original random class).
+func randomSingle(r *vlib.Rand) config {
 	cfg := config{Class: "random"}
-	switch k := e.R.Intn(10); {
+	switch k := r.Intn(10); {
 	case k < 6:
 		cfg.Kind = kindPub
 	case k < 8:
@@ -206,21 +516,21 @@ func run(e *vlib.Env) vlib.Result {
 		cfg.Kind = kindNoPub
 	}
 	cfg.Class = "random/" + cfg.Kind
-	cfg.MW = randomMW(e.R)
-	n := 1 + e.R.Intn(16)
-	cfg.Barrier = n > 1 && e.R.Chance(0.7)
-	cfg.YieldP = []float64{0, 0.1, 0.3, 0.6}[e.R.Intn(4)]
+	cfg.MW = randomMW(r)
+	n := 1 + r.Intn(16)
+	cfg.Barrier = n > 1 && r.Chance(0.7)
+	cfg.YieldP = []float64{0, 0.1, 0.3, 0.6}[r.Intn(4)]
 	for i := 0; i < n; i++ {
-		s := mspec{H: e.R.Intn(len(hbehs)), P: e.R.Intn(len(pbehs)), Y1: e.R.Intn(4), Y2: e.R.Intn(4)}
+		s := mspec{H: r.Intn(len(hbehs)), P: r.Intn(len(pbehs)), Y1: r.Intn(4), Y2: r.Intn(4)}
 		if cfg.Kind == kindNoPub {
-			s.H = hbehsNoOut[e.R.Intn(len(hbehsNoOut))]
+			s.H = hbehsNoOut[r.Intn(len(hbehsNoOut))]
 		}
-		if e.R.Chance(0.4) {
+		if r.Chance(0.4) {
 			s.P = 0 // keep enough accepting publishers for the Ack-after-Publish path
 		}
 		cfg.Specs = append(cfg.Specs, s)
 	}
-	return runBatch(e, cfg)
+	return cfg
 }
 
 // randomMW: any number of pass-through middlewares around at most one transforming middleware, so
@@ -347,9 +657,17 @@ type msgRec struct {
 	goid       int64
 	seen       string // settlement observed by the watcher
 	seenStamp  uint64
+	handledBy  int    // index of the handler whose chain was invoked (first entry)
+	parked     string // class end: hold point at which the message is (or was) parked before the gate opened
+	atEnd      string // class end: settlement state sampled after the subscription's end had propagated, before the gate opened
+	atEndTaken bool
 }
 
+type pubKey struct{ pub, no int }
+
 type pubRec struct {
+	seq      int // arrival order over all publisher instances
+	pub      int // publisher instance that received the call
 	no       int
 	topic    string
 	uuids    []string
@@ -365,8 +683,8 @@ type pubRec struct {
 
 type state struct {
 	pubCallsOf map[int]int // message index -> Publish calls made for it so far (behaviour "error-once")
-	id  string
-	cfg config
+	id         string
+	cfg        config
 
 	mu          sync.Mutex
 	recs        []*msgRec
@@ -374,7 +692,7 @@ type state struct {
 	ownerPtr    map[*message.Message]int
 	ownerUUID   map[string]int
 	byGoid      map[int64]int
-	pubs        map[int]*pubRec
+	pubs        map[pubKey]*pubRec
 	unknown     []string
 	entered     int
 	inflight    int
@@ -383,9 +701,64 @@ type state struct {
 
 	barrier     chan struct{}
 	barrierOnce sync.Once
+
+	// class end: held messages wait for the gate
+	gate     chan struct{}
+	gateOnce sync.Once
+	gateOpen bool // under mu
+
+	pubDecoCalls atomic.Int64
+	subDecoCalls atomic.Int64
 }
 
 func (st *state) releaseBarrier() { st.barrierOnce.Do(func() { close(st.barrier) }) }
+
+func (st *state) openGate() {
+	st.gateOnce.Do(func() {
+		st.mu.Lock()
+		st.gateOpen = true
+		st.mu.Unlock()
+		close(st.gate)
+	})
+}
+
+// park holds the calling goroutine (which is working on message i) at hold point `at` until the gate opens.
+func (st *state) park(i int, at string) {
+	st.mu.Lock()
+	if st.gateOpen || st.recs[i].parked != "" {
+		st.mu.Unlock()
+		return
+	}
+	st.recs[i].parked = at
+	st.mu.Unlock()
+	<-st.gate
+}
+
+// publisher wrapper types without a String method: the Router names them by their Go type
+type pubA struct{ p *vlib.Pub }
+
+func (w *pubA) Publish(topic string, msgs ...*message.Message) error {
+	return w.p.Publish(topic, msgs...)
+}
+func (w *pubA) Close() error { return w.p.Close() }
+
+type pubB struct{ p *vlib.Pub }
+
+func (w *pubB) Publish(topic string, msgs ...*message.Message) error {
+	return w.p.Publish(topic, msgs...)
+}
+func (w *pubB) Close() error { return w.p.Close() }
+
+// decoPub is a publisher decorator written as a wrapping type (the other one is watermill's MessageTransformPublisherDecorator).
+type decoPub struct {
+	message.Publisher
+	n *atomic.Int64
+}
+
+func (d *decoPub) Publish(topic string, msgs ...*message.Message) error {
+	d.n.Add(1)
+	return d.Publisher.Publish(topic, msgs...)
+}
 
 func goid() int64 {
 	var buf [64]byte
@@ -411,8 +784,8 @@ var errScriptedHandler = errors.New("c02: scripted handler error")
 var errScriptedPublish = errors.New("c02: scripted publish error")
 var errScriptedMW = errors.New("c02: scripted middleware error")
 
-// handle is the innermost handler function.
-func (st *state) handle(m *message.Message) ([]*message.Message, error) {
+// handle is the innermost handler function of handler number hd.
+func (st *state) handle(hd int, m *message.Message) ([]*message.Message, error) {
 	st.mu.Lock()
 	i, ok := st.byUUID[m.UUID]
 	if !ok {
@@ -429,6 +802,7 @@ func (st *state) handle(m *message.Message) ([]*message.Message, error) {
 		r.entryState = vlib.Settled(m)
 		r.samePtr = m == r.in
 		r.goid = goid()
+		r.handledBy = hd
 		st.byGoid[r.goid] = i
 	}
 	st.inflight++
@@ -445,6 +819,9 @@ func (st *state) handle(m *message.Message) ([]*message.Message, error) {
 		<-st.barrier
 	}
 	yield(sp.Y1)
+	if sp.Hold == holdPre && entry == 1 {
+		st.park(i, holdPre)
+	}
 	var selfRet []bool
 	switch h.Pre {
 	case "ack":
@@ -455,13 +832,16 @@ func (st *state) handle(m *message.Message) ([]*message.Message, error) {
 		selfRet = append(selfRet, m.Ack(), m.Nack())
 	}
 	yield(sp.Y2)
+	if sp.Hold == holdPost && entry == 1 {
+		st.park(i, holdPost)
+	}
 
 	var outs []*message.Message
 	if h.Outs == 0 {
 		outs = []*message.Message{}
 	}
 	panics := strings.HasPrefix(h.End, "panic")
-	if h.Outs > 0 && st.cfg.Kind != kindNoPub && !panics {
+	if h.Outs > 0 && st.cfg.Handlers[hd].Kind != kindNoPub && !panics {
 		for k := 0; k < h.Outs; k++ {
 			o := message.NewMessage(fmt.Sprintf("%s-o%d-e%d", m.UUID, k, entry), []byte(fmt.Sprintf("out %d of %s", k, m.UUID)))
 			o.Metadata.Set("from", m.UUID)
@@ -553,11 +933,11 @@ func (st *state) middleware(name string) message.HandlerMiddleware {
 	}
 }
 
-func (st *state) onPublish(c *vlib.PubCall) {
+func (st *state) onPublish(pub int, c *vlib.PubCall) {
 	g := goid()
 	st.mu.Lock()
 	defer st.mu.Unlock()
-	pr := &pubRec{no: c.No, topic: c.Topic, ptrs: c.Msgs, owner: -1, valueOK: true}
+	pr := &pubRec{seq: len(st.pubs), pub: pub, no: c.No, topic: c.Topic, ptrs: c.Msgs, owner: -1, valueOK: true}
 	owners := map[int]bool{}
 	for _, m := range c.Msgs {
 		pr.uuids = append(pr.uuids, m.UUID)
@@ -589,16 +969,31 @@ func (st *state) onPublish(c *vlib.PubCall) {
 			}
 		}
 	}
-	st.pubs[c.No] = pr
+	st.pubs[pubKey{pub, c.No}] = pr
 }
 
-func (st *state) script(no int, topic string, msgs []*message.Message) error {
+// script decides the outcome of call number no received by publisher instance pub.
+func (st *state) script(pub int, no int, topic string, msgs []*message.Message) error {
 	st.mu.Lock()
-	pr := st.pubs[no]
+	pr := st.pubs[pubKey{pub, no}]
 	beh := "accept"
+	owner := -1
 	if pr != nil && pr.owner >= 0 {
-		beh = pbehs[st.cfg.Specs[pr.owner].P]
-		pr.stateOut = vlib.Settled(st.recs[pr.owner].in)
+		owner = pr.owner
+		// the instance that received the call decides (a distinct publisher instance behaves in its own way)
+		beh = st.cfg.Pubs[pub].Beh
+		if beh == "" {
+			beh = pbehs[st.cfg.Specs[owner].P]
+		}
+	}
+	hold := owner >= 0 && st.cfg.Specs[owner].Hold == holdPublish
+	st.mu.Unlock()
+	if hold {
+		st.park(owner, holdPublish) // the Publish call has not returned while the message is parked here
+	}
+	st.mu.Lock()
+	if owner >= 0 {
+		pr.stateOut = vlib.Settled(st.recs[owner].in)
 	}
 	if beh == "error-once" {
 		if st.pubCallsOf == nil {
@@ -644,55 +1039,127 @@ var waitClose = vlib.WaitOpts{Watchdog: 60 * time.Second, NoTimerCheck: []string
 func runBatch(e *vlib.Env, cfg config) (res vlib.Result) {
 	res.Class = cfg.Class
 	id := e.ID()
+	cfg.normalize(id)
 	n := len(cfg.Specs)
+	nh := len(cfg.Handlers)
 	st := &state{
 		id: id, cfg: cfg,
 		byUUID: map[string]int{}, ownerPtr: map[*message.Message]int{}, ownerUUID: map[string]int{},
-		byGoid: map[int64]int{}, pubs: map[int]*pubRec{}, barrier: make(chan struct{}),
+		byGoid: map[int64]int{}, pubs: map[pubKey]*pubRec{}, barrier: make(chan struct{}), gate: make(chan struct{}),
 	}
 	for i := 0; i < n; i++ {
 		u := fmt.Sprintf("%s-m%d", id, i)
 		m := message.NewMessage(u, []byte("in "+u))
 		m.Metadata.Set("n", strconv.Itoa(i))
-		st.recs = append(st.recs, &msgRec{in: m, uuid: u})
+		st.recs = append(st.recs, &msgRec{in: m, uuid: u, handledBy: -1})
 		st.byUUID[u] = i
 	}
-	topicIn, topicOut, hname := id+".in", id+".out", id+".h"
+	suffix := func(k int) string {
+		if nh == 1 {
+			return ""
+		}
+		return strconv.Itoa(k)
+	}
+	topicIn := func(k int) string {
+		if cfg.SameTopics && len(cfg.Subs) == nh {
+			return id + ".in"
+		}
+		return id + ".in" + suffix(k)
+	}
+	topicOut := func(k int) string {
+		if cfg.SameTopics {
+			return id + ".out"
+		}
+		return id + ".out" + suffix(k)
+	}
+	hname := func(k int) string { return id + ".h" + suffix(k) }
 
 	ctl := vlib.NewCtl(e.R.Uint64(), cfg.YieldP, 30)
 	ctl.Filter(func(point, a, b string) bool { return a == "" || strings.HasPrefix(a, id) })
 	defer ctl.Uninstall()
 
-	sub := &vlib.Sub{Name: id}
-	pub := &vlib.Pub{Name: id, OnPublish: st.onPublish, Script: st.script}
+	subs := make([]*vlib.Sub, len(cfg.Subs))
+	for j, name := range cfg.Subs {
+		subs[j] = &vlib.Sub{Name: name}
+	}
+	vpubs := make([]*vlib.Pub, len(cfg.Pubs))
+	pubIfc := make([]message.Publisher, len(cfg.Pubs))
+	for j, ps := range cfg.Pubs {
+		j := j
+		vp := &vlib.Pub{
+			Name:      ps.Name,
+			OnPublish: func(c *vlib.PubCall) { st.onPublish(j, c) },
+			Script:    func(no int, topic string, msgs []*message.Message) error { return st.script(j, no, topic, msgs) },
+		}
+		vpubs[j] = vp
+		switch ps.Type {
+		case "A":
+			pubIfc[j] = &pubA{vp}
+		case "B":
+			pubIfc[j] = &pubB{vp}
+		default:
+			pubIfc[j] = vp
+		}
+	}
 	router, err := message.NewRouter(message.RouterConfig{CloseTimeout: time.Hour}, watermill.NopLogger{})
 	if err != nil {
 		res.Inconclusive("NewRouter: %v", err)
 		return res
 	}
-	var hd *message.Handler
-	switch cfg.Kind {
-	case kindPub:
-		hd = router.AddHandler(hname, topicIn, sub, topicOut, pub, st.handle)
-	case kindNilPub:
-		hd = router.AddHandler(hname, topicIn, sub, topicOut, nil, st.handle)
-	default:
-		hd = router.AddNoPublisherHandler(hname, topicIn, sub, func(m *message.Message) error {
-			_, err := st.handle(m)
-			return err
-		})
+	for _, d := range cfg.PubDecos {
+		if d == "transform" {
+			// the transform must not change the value of the message: published values are compared with the returned ones
+			router.AddPublisherDecorators(message.MessageTransformPublisherDecorator(func(*message.Message) { st.pubDecoCalls.Add(1) }))
+		} else {
+			router.AddPublisherDecorators(func(p message.Publisher) (message.Publisher, error) {
+				return &decoPub{Publisher: p, n: &st.pubDecoCalls}, nil
+			})
+		}
+	}
+	for i := 0; i < cfg.SubDecos; i++ {
+		router.AddSubscriberDecorators(message.MessageTransformSubscriberDecorator(func(*message.Message) { st.subDecoCalls.Add(1) }))
+	}
+	hds := make([]*message.Handler, nh)
+	for k, hs := range cfg.Handlers {
+		k := k
+		fn := func(m *message.Message) ([]*message.Message, error) { return st.handle(k, m) }
+		switch hs.Kind {
+		case kindPub:
+			hds[k] = router.AddHandler(hname(k), topicIn(k), subs[hs.Sub], topicOut(k), pubIfc[hs.Pub], fn)
+		case kindNilPub:
+			hds[k] = router.AddHandler(hname(k), topicIn(k), subs[hs.Sub], topicOut(k), nil, fn)
+		default:
+			hds[k] = router.AddNoPublisherHandler(hname(k), topicIn(k), subs[hs.Sub], func(m *message.Message) error {
+				_, err := st.handle(k, m)
+				return err
+			})
+		}
 	}
 	for _, name := range cfg.MW {
 		if strings.HasSuffix(name, "-r") {
 			router.AddMiddleware(st.middleware(name))
 		} else {
-			hd.AddMiddleware(st.middleware(name))
+			for k := range hds {
+				hds[k].AddMiddleware(st.middleware(name))
+			}
 		}
 	}
+	if cfg.Keep {
+		// a second handler that never gets a message: the Router keeps running when the first handler stops
+		router.AddNoPublisherHandler(id+".keep", id+".keepin", &vlib.Sub{Name: id + "-keep"}, func(*message.Message) error { return nil })
+	}
 
+	runCtx, cancelRun := context.WithCancel(context.Background())
+	defer cancelRun()
 	runDone := make(chan struct{})
 	var runErr error
-	go func() { runErr = router.Run(context.Background()); close(runDone) }()
+	go func() { runErr = router.Run(runCtx); close(runDone) }()
+
+	// Router.Close waits in sync.WaitGroupTimeout (one hour here): that timer cannot fire within a case
+	wopts := vlib.WD
+	if cfg.End != "" {
+		wopts.NoTimerCheck = waitClose.NoTimerCheck
+	}
 
 	stop := make(chan struct{})
 	var aux sync.WaitGroup
@@ -700,6 +1167,7 @@ func runBatch(e *vlib.Env, cfg config) (res vlib.Result) {
 	closeDone := make(chan struct{})
 	cleanup := func() (clean bool) {
 		st.releaseBarrier()
+		st.openGate()
 		if !closeStarted {
 			closeStarted = true
 			go func() { router.Close(); close(closeDone) }()
@@ -726,11 +1194,14 @@ func runBatch(e *vlib.Env, cfg config) (res vlib.Result) {
 		cleanup()
 		return res
 	}
-	sp := sub.SubFor(topicIn)
-	if sp == nil {
-		res.Inconclusive("router is running but did not subscribe to %s", topicIn)
-		cleanup()
-		return res
+	sps := make([]*vlib.Subscription, nh)
+	for k, hs := range cfg.Handlers {
+		sps[k] = subs[hs.Sub].SubFor(topicIn(k))
+		if sps[k] == nil {
+			res.Inconclusive("router is running but did not subscribe to %s", topicIn(k))
+			cleanup()
+			return res
+		}
 	}
 
 	// watchers: stamp the settlement of every emitted message when it becomes visible
@@ -755,20 +1226,97 @@ func runBatch(e *vlib.Env, cfg config) (res vlib.Result) {
 			st.mu.Unlock()
 		}(i)
 	}
-	// sender: emits the messages one after another (the Router takes the next one without waiting for a settlement)
-	aux.Add(1)
-	go func() {
-		defer aux.Done()
-		for i := range st.recs {
-			ok := sp.Send(st.recs[i].in)
+	// senders: one per subscription, each emits its messages one after another (the Router takes the next one
+	// without waiting for a settlement)
+	for k := range cfg.Handlers {
+		aux.Add(1)
+		go func(k int) {
+			defer aux.Done()
+			for i := range st.recs {
+				if cfg.Specs[i].Hd != k {
+					continue
+				}
+				ok := sps[k].Send(st.recs[i].in)
+				st.mu.Lock()
+				st.recs[i].sent, st.recs[i].taken = true, ok
+				st.mu.Unlock()
+				if !ok {
+					return
+				}
+			}
+		}(k)
+	}
+
+	// class end: when every message is either settled or parked at its hold point, end the subscription, wait until
+	// that has gone through the Router, and only then let the parked messages go on.
+	parkedAtEnd := 0
+	endOutcome := ""
+	if cfg.End != "" {
+		ready := func() bool {
 			st.mu.Lock()
-			st.recs[i].sent, st.recs[i].taken = true, ok
-			st.mu.Unlock()
-			if !ok {
-				return
+			defer st.mu.Unlock()
+			for i, r := range st.recs {
+				if !r.sent {
+					return false
+				}
+				sp := cfg.Specs[i]
+				parks := sp.Hold == holdPre || sp.Hold == holdPost ||
+					(sp.Hold == holdPublish && expect(cfg.kindOf(i), cfg.MW, hbehs[sp.H], cfg.ownBeh(i)).Publish)
+				if parks && r.parked == "" || !parks && r.seen == "" {
+					return false
+				}
+			}
+			return true
+		}
+		ocReady, _ := vlib.WaitUntil(ready, wopts)
+		st.mu.Lock()
+		for _, r := range st.recs {
+			if r.parked != "" {
+				parkedAtEnd++
 			}
 		}
-	}()
+		st.mu.Unlock()
+		stoppedCh := hds[0].Stopped()
+		switch cfg.End {
+		case "handler-stop":
+			hds[0].Stop()
+		case "router-close":
+			closeStarted = true
+			go func() { router.Close(); close(closeDone) }()
+		case "ctx-cancel":
+			cancelRun()
+		case "sub-close":
+			aux.Add(1)
+			go func() { defer aux.Done(); subs[0].Close() }()
+		}
+		// The end has gone through the Router when the handler is reported as stopped or (earlier) when the Router has
+		// closed the handler's publisher, which it does after the handler's message channel was closed. While Router.Close
+		// is waiting for the parked messages neither may be observable: then the process becomes quiescent, which also
+		// means that everything the end of the subscription triggers has happened.
+		propagated := func() bool {
+			if vlib.IsClosed(stoppedCh) {
+				return true
+			}
+			return cfg.Handlers[0].Kind == kindPub && vpubs[0].CloseCalls.Load() > 0
+		}
+		ocEnd, _ := vlib.WaitUntil(propagated, wopts)
+		switch {
+		case ocReady == vlib.Inconclusive || ocEnd == vlib.Inconclusive:
+			endOutcome = "inconclusive"
+		case ocEnd == vlib.Stuck:
+			endOutcome = "quiescent"
+		default:
+			endOutcome = "observed"
+		}
+		st.mu.Lock()
+		for _, r := range st.recs {
+			if r.parked != "" {
+				r.atEnd, r.atEndTaken = vlib.Settled(r.in), true
+			}
+		}
+		st.mu.Unlock()
+		st.openGate()
+	}
 
 	allSettled := func() bool {
 		st.mu.Lock()
@@ -785,7 +1333,7 @@ func runBatch(e *vlib.Env, cfg config) (res vlib.Result) {
 	}
 	barrierAborted := false
 	var stuckDump string
-	oc, d := vlib.WaitUntil(allSettled, vlib.WD)
+	oc, d := vlib.WaitUntil(allSettled, wopts)
 	if oc == vlib.Stuck && cfg.Barrier {
 		st.mu.Lock()
 		waiting := st.entered < n
@@ -795,7 +1343,7 @@ func runBatch(e *vlib.Env, cfg config) (res vlib.Result) {
 			// statement promises, so let the ones that are waiting go on and judge the rest as a free-running case.
 			barrierAborted = true
 			st.releaseBarrier()
-			oc, d = vlib.WaitUntil(allSettled, vlib.WD)
+			oc, d = vlib.WaitUntil(allSettled, wopts)
 		}
 	}
 	switch oc {
@@ -813,10 +1361,16 @@ func runBatch(e *vlib.Env, cfg config) (res vlib.Result) {
 	st.mu.Lock()
 	defer st.mu.Unlock()
 	res.Hooks = ctl.Counts()
-	calls := pub.Calls()
+	ncalls := 0
+	for _, vp := range vpubs {
+		ncalls += len(vp.Calls())
+	}
 	type msgOut struct {
+		Hd     int      `json:"handler_no"`
 		H      string   `json:"handler"`
 		P      string   `json:"publisher"`
+		Hold   string   `json:"held_at,omitempty"`
+		AtEnd  string   `json:"state_when_subscription_ended,omitempty"`
 		Want   string   `json:"want"`
 		Got    string   `json:"got"`
 		AtExit string   `json:"state_at_handler_exit"`
@@ -824,13 +1378,12 @@ func runBatch(e *vlib.Env, cfg config) (res vlib.Result) {
 	}
 	var sample []msgOut
 	pubsOf := map[int][]*pubRec{}
-	var nos []int
-	for no := range st.pubs {
-		nos = append(nos, no)
+	var allPubs []*pubRec
+	for _, pr := range st.pubs {
+		allPubs = append(allPubs, pr)
 	}
-	sort.Ints(nos)
-	for _, no := range nos {
-		pr := st.pubs[no]
+	sort.Slice(allPubs, func(a, b int) bool { return allPubs[a].seq < allPubs[b].seq })
+	for _, pr := range allPubs {
 		pubsOf[pr.owner] = append(pubsOf[pr.owner], pr)
 		res.Count("publish_calls", 1)
 		res.Count("publish_"+pr.outcome, 1)
@@ -847,8 +1400,8 @@ func runBatch(e *vlib.Env, cfg config) (res vlib.Result) {
 			res.Count("publish_calls_same_pointers", 1)
 		}
 	}
-	if len(calls) != len(st.pubs) {
-		res.Inconclusive("harness: %d Publish calls recorded by the publisher, %d by the monitor", len(calls), len(st.pubs))
+	if ncalls != len(st.pubs) {
+		res.Inconclusive("harness: %d Publish calls recorded by the publishers, %d by the monitor", ncalls, len(st.pubs))
 	}
 	if len(st.unknown) > 0 {
 		res.Fail("handler-unknown-message", "the handler was invoked with messages the subscriber never emitted: %v", st.unknown)
@@ -871,13 +1424,25 @@ func runBatch(e *vlib.Env, cfg config) (res vlib.Result) {
 	for i, r := range st.recs {
 		spc := cfg.Specs[i]
 		h := hbehs[spc.H]
-		x := expect(cfg.Kind, cfg.MW, h, pbehs[spc.P])
+		kind := cfg.kindOf(i)
+		ownBeh := cfg.ownBeh(i)
+		ownPub := cfg.Handlers[spc.Hd].Pub
+		x := expect(kind, cfg.MW, h, ownBeh)
 		got := vlib.Settled(r.in)
-		prs := pubsOf[i]
+		prsAll := pubsOf[i]
+		// a Publish call counts for the message only if it reached the publisher instance of the message's own handler
+		var prs, foreign []*pubRec
+		for _, pr := range prsAll {
+			if pr.pub == ownPub {
+				prs = append(prs, pr)
+			} else {
+				foreign = append(foreign, pr)
+			}
+		}
 		if i < 4 {
-			mo := msgOut{H: h.Name, P: pbehs[spc.P], Want: x.Final, Got: got, AtExit: r.exitState}
-			for _, pr := range prs {
-				mo.Pubs = append(mo.Pubs, fmt.Sprintf("#%d %s %d msgs -> %s (consumed message: %q at entry, %q before return)", pr.no, pr.topic, len(pr.uuids), pr.outcome, pr.stateIn, pr.stateOut))
+			mo := msgOut{Hd: spc.Hd, H: h.Name, P: ownBeh, Hold: r.parked, AtEnd: r.atEnd, Want: x.Final, Got: got, AtExit: r.exitState}
+			for _, pr := range prsAll {
+				mo.Pubs = append(mo.Pubs, fmt.Sprintf("publisher %d #%d %s %d msgs -> %s (consumed message: %q at entry, %q before return)", pr.pub, pr.no, pr.topic, len(pr.uuids), pr.outcome, pr.stateIn, pr.stateOut))
 			}
 			sample = append(sample, mo)
 		}
@@ -889,7 +1454,22 @@ func runBatch(e *vlib.Env, cfg config) (res vlib.Result) {
 		judged++
 		res.Count("messages", 1)
 		res.Events += 2*r.entries + 1
-		desc := fmt.Sprintf("message %d/%d (handler=%s publisher=%s kind=%s middleware=%v)", i, n, h.Name, pbehs[spc.P], cfg.Kind, cfg.MW)
+		desc := fmt.Sprintf("message %d/%d (handler=%s publisher=%s kind=%s middleware=%v)", i, n, h.Name, ownBeh, kind, cfg.MW)
+		if nh > 1 {
+			desc = fmt.Sprintf("message %d/%d (handler #%d of %d: %s, its publisher: instance %d of %v mode %q decorators %v -> %s, kind=%s middleware=%v)",
+				i, n, spc.Hd, nh, h.Name, ownPub, len(cfg.Pubs), cfg.PubMode, cfg.PubDecos, ownBeh, kind, cfg.MW)
+		}
+		if r.parked != "" {
+			desc += fmt.Sprintf(" [in flight (held at %s) when the subscription ended by %s; state at that moment %q]", r.parked, cfg.End, r.atEnd)
+			res.Count("parked_"+r.parked, 1)
+			wantAtEnd := x.Self
+			if r.parked == holdPre {
+				wantAtEnd = ""
+			}
+			if r.atEndTaken && r.atEnd != wantAtEnd {
+				res.Count("settled_while_in_flight", 1) // judged below by the clauses of the statement
+			}
+		}
 
 		// --- the handler chain is invoked (once) before the settlement
 		if r.entries != 1 {
@@ -900,6 +1480,9 @@ func runBatch(e *vlib.Env, cfg config) (res vlib.Result) {
 				res.Fail("handler-calls", "%s: handler chain invoked %d times (settled %q)", desc, r.entries, got)
 			}
 			continue
+		}
+		if r.handledBy != spc.Hd {
+			res.Fail("handler-foreign-chain", "%s: the message was emitted by the subscription of handler #%d but the chain of handler #%d was invoked", desc, spc.Hd, r.handledBy)
 		}
 		if r.entryState != "" {
 			res.Fail("settled-before-handler", "%s: message already %sed when the handler was entered", desc, r.entryState)
@@ -927,7 +1510,7 @@ func runBatch(e *vlib.Env, cfg config) (res vlib.Result) {
 		if !x.ChainErr && len(exp) != x.NOuts {
 			res.Inconclusive("harness: %s: chain returned %d messages, model says %d", desc, len(exp), x.NOuts)
 		}
-		for _, pr := range prs {
+		for _, pr := range prsAll {
 			if x.Self != "ack" {
 				ackSeenEarly := r.seen == "ack" && pr.endStamp != 0 && r.seenStamp < pr.endStamp
 				if pr.stateIn == "ack" || pr.stateOut == "ack" || ackSeenEarly {
@@ -939,27 +1522,37 @@ func runBatch(e *vlib.Env, cfg config) (res vlib.Result) {
 				res.Fail("publish-empty", "%s: Publish(%q) was called with no messages", desc, pr.topic)
 			}
 		}
-		if len(prs) > 0 && x.ChainErr {
-			res.Fail("publish-after-error", "%s: the chain failed but %d Publish call(s) were made with %v", desc, len(prs), prs[0].uuids)
-		} else if len(prs) > 0 && !x.Publish {
-			res.Fail("publish-unexpected", "%s: no publish expected but %d call(s) were made", desc, len(prs))
+		if len(prsAll) > 0 && x.ChainErr {
+			res.Fail("publish-after-error", "%s: the chain failed but %d Publish call(s) were made with %v", desc, len(prsAll), prsAll[0].uuids)
+		} else if len(prsAll) > 0 && !x.Publish {
+			res.Fail("publish-unexpected", "%s: no publish expected but %d call(s) were made", desc, len(prsAll))
+		}
+		if len(foreign) > 0 {
+			res.Count("publish_calls_foreign", len(foreign))
 		}
 		if x.Publish {
 			res.Count("publish_expected", 1)
 			var concat []string
 			for _, pr := range prs {
 				concat = append(concat, pr.uuids...)
-				if pr.topic != topicOut {
-					res.Fail("publish-topic", "%s: published to %q, handler's publish topic is %q", desc, pr.topic, topicOut)
+				if pr.topic != topicOut(spc.Hd) {
+					res.Fail("publish-topic", "%s: published to %q, handler's publish topic is %q", desc, pr.topic, topicOut(spc.Hd))
 				}
 				if !pr.valueOK {
 					res.Fail("publish-args", "%s: a published message differs in value from the one the chain returned", desc)
 				}
 			}
 			switch {
+			case len(prs) == 0 && len(foreign) > 0:
+				// The outputs went to a publisher that is not the handler's. The statement ties the Ack to the handler's
+				// publisher having accepted them; whether a Nack is right is decided by the settlement clauses below.
+				if got == "ack" && x.Self == "" {
+					res.Fail("publish-foreign-publisher", "%s: acked although the handler's own publisher was never offered the outputs %v; they were offered to publisher instance %d (%s)",
+						desc, exp, foreign[0].pub, foreign[0].outcome)
+				}
 			case len(prs) == 0:
 				res.Fail("publish-missing", "%s: the chain returned %d messages without error but Publish was never called (message %q)", desc, len(exp), got)
-			case pbehs[spc.P] == "accept":
+			case ownBeh == "accept":
 				if strings.Join(concat, ",") != strings.Join(exp, ",") {
 					res.Fail("publish-args", "%s: published %v, the chain returned %v", desc, concat, exp)
 				}
@@ -1021,16 +1614,67 @@ func runBatch(e *vlib.Env, cfg config) (res vlib.Result) {
 		res.Count("run_errors", 1)
 	}
 	res.NonTrivial = judged == n && (!cfg.Barrier || st.maxInflight >= 2)
-	if cfg.Class != "matrix/1" && cfg.Class != "matrix/n" {
-		var shape []string
+	if cfg.End != "" {
+		res.Count("end_"+cfg.End, 1)
+		res.Count("end_propagation_"+endOutcome, 1)
+		res.Count("in_flight_when_subscription_ended", parkedAtEnd)
+		if cfg.Keep {
+			res.Count("end_with_second_handler", 1)
+		}
+		res.NonTrivial = res.NonTrivial && parkedAtEnd >= 1 && endOutcome != "inconclusive"
+		if endOutcome == "inconclusive" && res.Verdict == "" {
+			res.Inconclusive("the end of the subscription (%s) was neither observed to have gone through the Router nor was the process quiescent before the watchdog", cfg.End)
+		}
+	}
+	if nh > 1 {
+		handled := map[int]bool{}
+		for _, r := range st.recs {
+			if r.handledBy >= 0 {
+				handled[r.handledBy] = true
+			}
+		}
+		res.Count("handlers", nh)
+		res.Count("publisher_instances", len(cfg.Pubs))
+		res.Count("pubmode_"+cfg.PubMode, 1)
+		res.NonTrivial = res.NonTrivial && len(handled) >= 2
+	}
+	if k := int(st.pubDecoCalls.Load()); k > 0 {
+		res.Count("publisher_decorator_calls", k)
+	}
+	if k := int(st.subDecoCalls.Load()); k > 0 {
+		res.Count("subscriber_decorator_calls", k)
+	}
+	var shape []string
+	for _, s := range cfg.Specs {
+		shape = append(shape, fmt.Sprintf("%d/%d/%d/%s", s.Hd, s.H, s.P, s.Hold))
+	}
+	if nh == 1 && cfg.End == "" {
+		shape = shape[:0]
 		for _, s := range cfg.Specs {
 			shape = append(shape, fmt.Sprintf("%d/%d", s.H, s.P))
 		}
 		res.Sig = vlib.Sig("random", cfg.Kind, cfg.MW, cfg.Barrier, shape, order)
+	} else {
+		res.Sig = vlib.Sig(cfg.Class, cfg.Handlers, cfg.Pubs, len(cfg.Subs), cfg.PubDecos, cfg.SubDecos, cfg.SameTopics, cfg.End, cfg.Keep, cfg.MW, cfg.Barrier, shape, order)
 	}
 	res.Sample = map[string]any{
 		"kind": cfg.Kind, "middleware": cfg.MW, "messages": n, "barrier": cfg.Barrier, "max_in_flight": st.maxInflight,
 		"settlement_order": order, "first_messages": sample,
+	}
+	if cfg.End != "" {
+		res.Sample.(map[string]any)["subscription_ended_by"] = cfg.End
+		res.Sample.(map[string]any)["second_handler"] = cfg.Keep
+		res.Sample.(map[string]any)["subscriber_decorators"] = cfg.SubDecos
+	}
+	if nh > 1 {
+		res.Sample.(map[string]any)["handlers"] = cfg.Handlers
+		res.Sample.(map[string]any)["publishers"] = cfg.Pubs
+		res.Sample.(map[string]any)["publisher_decorators"] = cfg.PubDecos
+		res.Sample.(map[string]any)["subscriber_instances"] = len(cfg.Subs)
+		res.Sample.(map[string]any)["same_topic_names"] = cfg.SameTopics
+		if cfg.SameTopics {
+			res.Count("cases_with_equal_topic_names", 1)
+		}
 	}
 	return res
 }
